@@ -6,15 +6,26 @@ A real `Network` + `SimServer` + scripted peer endpoints on `vlib.connharness.Ga
 One request `create_peer_connection(username, typ[, ip, port, obfuscate])` per case, in fallback or race
 mode; the schedule releases, in any order, the completions the two attempts wait for: the GetPeerAddress
 reply (valid / 0.0.0.0 / no port), the connect outcome (ok with PeerInit written / PeerInit write fails /
-refused / timeout), a peer piercing with the request's ticket, CannotConnect from the server, the 60 s
-timer, cancellation of the request — also *after* the request has finished (late pierce, late CannotConnect).
-After each op the loop runs to quiescence and the harness records: what the request did, the registry,
-the three waiter tables, open sockets, what the server and the peer have received.  The same ops go through
-`Driver/C11.lean` (`Model/PeerConnect.lean`).  `select_port` is compared on the full availability x preference
-table.  The connect-back half of the property runs the `back` scenarios of K_C10 and checks the answer the
-asking peer / the server got.
+refused / timeout / a non-OSError from open_connection), a peer piercing with the request's ticket, CannotConnect
+from the server, the 60 s timer, cancellation of the request — also *after* the request has finished (late
+pierce, late CannotConnect).
 
-case = {'kind', 'mode', 'lookup', 'srvFail', 'typ', 'prefer', 'ports': [clear, obfs], 'ops': [[name, arg?]...]}
+Suspended application listeners (`_ListenerGate`): an async listener on the event bus for
+ConnectionStateChangedEvent, PeerInitializedEvent and MessageReceivedEvent.  The schedule names the notifications
+whose listener invocations suspend (`hold`: CONNECTING / CONNECTED / PeerInitializedEvent / CLOSING / CLOSED of the
+outgoing connection `d:`, of a connection being accepted `a:`, of the pierced connection the request closes `w:`;
+a server message `m:`) and when each returns (`release`, `drain` = all of them); every other completion can be
+delivered while an invocation is suspended.  The Lean model takes every notification as a step of its own
+(`note <label>`): the harness sends a `note` for each invocation that returned (at once, or when released).
+
+After each op the loop runs to quiescence and the harness records: what the request did, the registry,
+the three waiter tables, open sockets, what the server and the peer have received, which listener invocations are
+suspended.  The same ops go through `Driver/C11.lean` (`Model/PeerConnect.lean`).  `select_port` is compared on the
+full availability x preference table.  The connect-back half of the property runs the `back` scenarios of K_C10
+and checks the answer the asking peer / the server got.
+
+case = {'kind', 'mode', 'lookup', 'srvFail', 'typ', 'prefer', 'ports': [clear, obfs], 'hold': [label...]?,
+        'ops': [[name, arg?]...]}
 """
 from __future__ import annotations
 
@@ -215,7 +226,7 @@ def _run_impl(case: dict) -> dict:
                     return bool(dial_parked())
                 if name == 'pierce':
                     # one incoming connection in flight at a time (the model's bound)
-                    return not any(l.startswith('a:') for l in gate.parked_labels())
+                    return bool(case.get('multiPierce')) or not any(l.startswith('a:') for l in gate.parked_labels())
                 if name == 'cannotConnect':
                     return srv_open()
                 if name == 'indirectTimeout':
@@ -898,6 +909,14 @@ def _coincidence_held() -> list[dict]:
                     cases.append({'kind': f'coincidence:held:{mode}:{a[0]}+{b[0]}:gap{gap}', 'mode': mode, 'lookup': 0,
                                   'srvFail': 0, 'typ': 'P', 'prefer': 0, 'ports': [2234, 0], 'hold': list(hs),
                                   'ops': pre + first + [['pair', a, b, gap]] + [list(o) for o in LATE_HELD]})
+        # two peers pierce with the same ticket while the listeners of the first are still suspended (monitor only: the
+        # model handles one incoming connection at a time)
+        for hs in (['a:INIT'], ['a:CONNECTED'], ['a:CONNECTED', 'a:INIT']):
+            for mid in ([], [['release', hs[0]]], [['cancelRequest']], [['indirectTimeout']], [['cannotConnect']],
+                        [['connectOk', 1]], [['release', hs[0]], ['release', hs[0]]], [['release', hs[0]], ['cancelRequest']]):
+                cases.append({'kind': f'coincidence:multi-pierce:{mode}:{"+".join(hs)}', 'mode': mode, 'lookup': 0,
+                              'srvFail': 0, 'typ': 'P', 'prefer': 0, 'ports': [2234, 0], 'hold': list(hs), 'multiPierce': 1,
+                              'ops': pre + [['pierce'], ['pierce']] + mid + [list(o) for o in LATE_HELD]})
     return cases
 
 
@@ -1008,24 +1027,42 @@ class C11(Property):
     driver_module = 'AioslskVerif.Driver.C11'
     rule = ('the full grid mode {fallback, race} x address {given, looked up: valid / 0.0.0.0 / no port} x ConnectToPeer '
             'write {ok, fails} x direct {connects + PeerInit written, PeerInit write fails, refused, connect timeout, '
-            'never completes} x indirect {peer pierces, CannotConnect, 60 s timeout, nothing} x every relative order of the '
-            'two outcomes x cancellation of the request at every position (or not at all), each followed by late events '
-            '(pierce, CannotConnect, connect completion, timer, cancel) after the request finished; clear/obfuscated port '
-            'availability x preference rotated over the grid and compared exhaustively for select_port; plus random op '
-            'sequences from VERIF_SEED; plus the connect-back scenarios of K_C10. Non-trivial: the request finished and at '
-            'least one later op was executed, or both attempts were started; distinct = distinct (config, executed ops)')
+            'open_connection raises a non-OSError, never completes} x indirect {peer pierces, CannotConnect, 60 s timeout, '
+            'nothing} x every relative order of the two outcomes x cancellation of the request at every position (or not at '
+            'all), each followed by late events (pierce, CannotConnect, connect completion, timer, cancel) after the request '
+            'finished; clear/obfuscated port availability x preference rotated over the grid and compared exhaustively for '
+            'select_port; random op sequences from VERIF_SEED; SUSPENDED LISTENERS: for 25 sets of notifications whose '
+            'listeners suspend (each single one of CONNECTING / CONNECTED / PeerInitializedEvent / CLOSING / CLOSED of the '
+            'outgoing connection, CONNECTED / PeerInitializedEvent / CLOSING / CLOSED of a connection being accepted, the '
+            'CannotConnect / GetPeerAddress message events, and 14 pairs incl. the winner being closed) x both modes: every '
+            'sequence of 2 (quick: + a VERIF_SEED-dependent twelfth of those of 3; thorough: all of 3 + a ninth of those of 4) '
+            'distinct events out of {the 8 completions incl. cancellation, "the listeners of L return" for each held L}, then '
+            'all listeners return, late events, all listeners return; random sequences with random hold sets and hold / '
+            'unhold / release / drain ops; monitor only: two completions inside one settle 0..5 (0..9 for completion + '
+            'cancellation) loop iterations apart, also with a suspended listener; plus the connect-back scenarios of K_C10. '
+            'Non-trivial: the request finished and at least one later op was executed, or both attempts were started; '
+            'distinct = distinct (config, hold set, executed ops)')
     assumptions = [
-        'each completion is processed to quiescence before the next (two outcomes never land in the same loop iteration; '
-        'the windows of 1-2 iterations between a waiter being completed and its task waking are not scheduled)',
+        'without the coincidence family each completion is processed to quiescence (or to a suspended listener) before '
+        'the next; the coincidence family (two completions 0..9 loop iterations apart) is checked by the monitor only',
         'the server answers the address look-up (valid, 0.0.0.0 or no usable port); no reply at all is outside the '
         'property (the code waits without timeout)',
-        'EventBus listeners of PeerInitializedEvent do not suspend',
+        'one incoming connection is being accepted at a time (a second pierce is only delivered when the listeners of the '
+        'first have returned)',
+        'a server message whose listener is suspended holds up the server reader: later server messages are delivered '
+        'after it (the harness does not send them meanwhile); in the model such a message takes effect when its '
+        'listeners return',
         'a cancelled request is cancelled once',
     ]
-    modelled = ('create_peer_connection, _create_peer_connection_fallback/_race, _get_peer_address, select_port, '
-                '_make_direct_connection, _make_indirect_connection, the PeerPierceFirewall arm of on_peer_accepted, '
-                'completion of the CannotConnect waiter; connect-back (_handle_connect_to_peer) through Model/Conn.lean. '
-                'Exercised only: codec, obfuscation, asyncio.wait/gather/Task.cancel, connection internals (C10)')
+    modelled = ('create_peer_connection, _create_peer_connection_fallback/_race (incl. gather of the loser, closing the '
+                'winner when cancelled meanwhile), _get_peer_address, select_port, _make_direct_connection, '
+                '_make_indirect_connection, ListeningConnection.accept + the PeerPierceFirewall arm of on_peer_accepted, '
+                'completion of the CannotConnect waiter, and every listener notification on these paths (CONNECTING / '
+                'CONNECTED / PeerInitializedEvent / CLOSING / CLOSED) as a suspension point of its own, with '
+                'DataConnection.disconnect running to CLOSED when cancelled inside one; connect-back '
+                '(_handle_connect_to_peer) through Model/Conn.lean. Exercised only: codec, obfuscation, '
+                'asyncio.wait/gather/Task.cancel, connection internals (C10), a suspended PeerInit drain (K_C10 direct '
+                'scenarios), two pierces in flight at once (monitor only)')
 
     def correspondence(self, seed, tier, model_ok, widen=1):
         res = KResult()
